@@ -1,4 +1,7 @@
-use std::{collections::BTreeMap, sync::Arc};
+use std::{
+    collections::{BTreeMap, HashMap},
+    sync::Arc,
+};
 
 use maplit::btreemap;
 use quote::quote;
@@ -47,6 +50,20 @@ pub(super) fn make_entrypoints_file(
         .map(|x| x.try_into_struct::<ResultRow>().expect("invalid conversion"))
         .collect();
     rows.sort_unstable();
+
+    // Entrypoints whose names differ only in capitalization (or by a trailing underscore
+    // next to a keyword) would be resolved by functions with the same name.
+    let mut uniq: HashMap<String, String> = HashMap::new();
+    for row in &rows {
+        let converted = escaped_rust_name(to_lower_snake_case(&row.name));
+        if let Some(v) = uniq.insert(converted, row.name.clone()) {
+            panic!(
+                "cannot generate adapter for a schema containing both '{}' and '{}' as entrypoints, consider renaming one of them",
+                v, row.name
+            );
+        }
+    }
+
     for row in rows {
         let parameters: Vec<_> = row.parameter_name.into_iter().zip(row.parameter_type).collect();
 
